@@ -100,6 +100,7 @@ type c08Case struct {
 	HwRes     int     `json:"hw_res"`
 	HwSlowRes int     `json:"hw_slow_res"`
 	DualStart int     `json:"dual_start"` // ShardFixedKey2Timestamp relative to the start second
+	Dual      [][2]int `json:"dual,omitempty"` // per re-sharded metric: ShardFixedKey, ShardFixedKey2 (1-based shard keys); default 1,2
 	MapA      []int   `json:"map_a"`
 	MapB      []int   `json:"map_b"`
 	Ops       []c08Op `json:"ops"`
@@ -124,14 +125,23 @@ func c08Metrics(c c08Case) []c08Metric {
 		}
 		return m
 	}
+	dk := func(i int) (uint32, uint32) {
+		if i < len(c.Dual) && c.Dual[i][0] >= 1 && c.Dual[i][0] <= c.Shards && c.Dual[i][1] >= 1 {
+			return uint32(c.Dual[i][0]), uint32(c.Dual[i][1])
+		}
+		return 1, 2
+	}
+	d0k1, d0k2 := dk(0)
+	d1k1, d1k2 := dk(1)
+	d2k1, d2k2 := dk(2)
 	ms := []c08Metric{
 		{meta: mk(101, "c08_r1", 1, format.ShardByMetricID, 0, 0)},
 		{meta: mk(102, "c08_r5", 5, format.ShardByMetricID, 0, 0)},
 		{meta: mk(103, "c08_r15", 15, format.ShardByMetricID, 0, 0)},
 		{meta: mk(104, "c08_r60", 60, format.ShardByMetricID, 0, 0)},
 		{meta: mk(105, "c08_r5h", 5, format.ShardByTagsHash, 0, 0)},
-		{meta: mk(106, "c08_dual", 1, format.ShardByMetricID, 1, 2), dual: true},
-		{meta: mk(107, "c08_dual15", 15, format.ShardByMetricID, 1, 2), dual: true},
+		{meta: mk(106, "c08_dual", 1, format.ShardByMetricID, d0k1, d0k2), dual: true},
+		{meta: mk(107, "c08_dual15", 15, format.ShardByMetricID, d1k1, d1k2), dual: true},
 		{meta: format.BuiltinMetrics[format.BuiltinMetricIDCPUUsage], hw: 1},
 	}
 	var slow *format.MetricMetaValue
@@ -141,6 +151,7 @@ func c08Metrics(c c08Case) []c08Metric {
 		}
 	}
 	ms = append(ms, c08Metric{meta: slow, hw: 2})
+	ms = append(ms, c08Metric{meta: mk(108, "c08_dual5", 5, format.ShardByMetricID, d2k1, d2k2), dual: true})
 	return ms
 }
 
@@ -249,14 +260,15 @@ func c08MakeAgent(c c08Case, now time.Time, seed uint64) *Agent {
 }
 
 type c08Desc struct {
-	who string
-	i   int
-	st  *c08EvState
+	who   string
+	i     int
+	st    *c08EvState
+	extra string
 }
 
 func (d c08Desc) String() string {
 	st := d.st
-	return fmt.Sprintf("agent %s event #%d (op %d, metric %s res %d, series %s, ts %d clamped %d, shard clock %d, send cursors %v)", d.who, d.i, st.op, st.metric.meta.Name, st.res, st.series, st.tsEff, st.clamped, st.cur, st.send)
+	return fmt.Sprintf("agent %s event #%d (op %d, metric %s res %d, series %s, ts %d clamped %d, shard clock %d, send cursors %v)", d.who, d.i, st.op, st.metric.meta.Name, st.res, st.series, st.tsEff, st.clamped, st.cur, st.send) + d.extra
 }
 
 type c08Occ struct {
@@ -636,7 +648,7 @@ func c08CheckRun(t vpT, c c08Case, r *c08Run, who string) []uint32 {
 		if st.stopped {
 			r.cls["event-after-stop"] = true
 		}
-		dual := st.metric.dual && c.Shards >= 2
+		dual := st.metric.dual
 		total := 0
 		for si, n := range perShard {
 			total += n
@@ -644,6 +656,7 @@ func c08CheckRun(t vpT, c c08Case, r *c08Run, who string) []uint32 {
 				t.Fatalf("%s was delivered %d times on shard %d: %+v", desc, n, si, st.occ)
 			}
 		}
+		primary := -1
 		if !dual {
 			if total > 1 {
 				t.Fatalf("%s was delivered in %d buckets: %+v", desc, total, st.occ)
@@ -655,17 +668,34 @@ func c08CheckRun(t vpT, c c08Case, r *c08Run, who string) []uint32 {
 				r.cls["drop-observed"] = true
 			}
 		} else {
+			// re-sharded metric: destination shards are the primary (ShardFixedKey) and, if it exists and is a
+			// different shard, the secondary (ShardFixedKey2) from its start time on; one bucket per destination
 			start := st.metric.meta.ShardFixedKey2Timestamp
+			primary = int(st.metric.meta.ShardFixedKey) - 1
+			secondary := int(st.metric.meta.ShardFixedKey2) - 1
+			switch {
+			case secondary == primary:
+				r.cls["reshard-secondary-equals-primary"] = true
+				secondary = -1
+			case secondary >= c.Shards:
+				r.cls["reshard-secondary-out-of-range"] = true
+				secondary = -1
+			case secondary == primary-1:
+				r.cls["reshard-secondary-is-primary-minus-1"] = true
+			default:
+				r.cls["reshard-secondary-other"] = true
+			}
+			desc.extra = fmt.Sprintf(" [re-sharded metric: primary shard %d, secondary shard %d (-1: none), start %d]", primary, secondary, start)
 			for si, n := range perShard {
 				switch {
-				case si == 0:
-					if n == 0 && !st.gap[0] && !st.stopped {
+				case si == primary:
+					if n == 0 && !st.gap[si] && !st.stopped {
 						t.Fatalf("%s was dropped on its primary shard without a drop condition", desc)
 					}
-				case si == 1:
+				case si == secondary:
 					if st.rounded >= start {
 						r.cls["dual-after-start"] = true
-						if n == 0 && !st.gap[1] && !st.stopped {
+						if n == 0 && !st.gap[si] && !st.stopped {
 							t.Fatalf("%s was dropped on its secondary shard although its timestamp is not before the start time %d", desc, start)
 						}
 					} else if st.clamped < start {
@@ -713,7 +743,7 @@ func c08CheckRun(t vpT, c c08Case, r *c08Run, who string) []uint32 {
 			} else {
 				groups[key] = grp{time: o.bucketTime, ev: i}
 			}
-			if !dual || o.shard == 0 {
+			if !dual || o.shard == primary {
 				usable[i] = o.bucketTime
 			}
 			if st.res > 1 {
@@ -802,6 +832,11 @@ func c08Gen() *rapid.Generator[c08Case] {
 			HwSlowRes: rapid.SampledFrom([]int{15, 15, 60, 30}).Draw(t, "hwslow"),
 			DualStart: rapid.IntRange(-20, 40).Draw(t, "dualstart"),
 		}
+		for i := 0; i < 3; i++ { // primary within the agent's shards; secondary: same shard, the one before, any other, or beyond
+			k1 := rapid.IntRange(1, c.Shards).Draw(t, "k1")
+			k2 := rapid.SampledFrom([]int{k1, k1, max(1, k1-1), k1 + 1, 1, 2, 3, 4}).Draw(t, "k2")
+			c.Dual = append(c.Dual, [2]int{k1, k2})
+		}
 		codes := []int{}
 		for _, i := range []int{0, 1, 2, 4} {
 			for v := 0; v < 3; v++ {
@@ -848,7 +883,7 @@ func c08Gen() *rapid.Generator[c08Case] {
 		}
 		var pool []tmpl
 		for i := 0; i < 3; i++ {
-			pool = append(pool, tmpl{m: rapid.SampledFrom([]int{0, 1, 1, 2, 3, 3, 4, 4, 5, 6, 7, 8}).Draw(t, "metric"), tags: genTags()})
+			pool = append(pool, tmpl{m: rapid.SampledFrom([]int{0, 1, 1, 2, 3, 3, 4, 4, 5, 6, 9, 7, 8}).Draw(t, "metric"), tags: genTags()})
 		}
 		nEv := 0
 		event := func() c08Op {
@@ -862,7 +897,7 @@ func c08Gen() *rapid.Generator[c08Case] {
 					}
 				}
 			} else {
-				tp = tmpl{m: rapid.IntRange(0, 8).Draw(t, "metric"), tags: genTags()}
+				tp = tmpl{m: rapid.IntRange(0, 9).Draw(t, "metric"), tags: genTags()}
 			}
 			ev := &c08Ev{M: tp.m, Tags: tp.tags, Kind: rapid.SampledFrom([]int{0, 0, 1, 2}).Draw(t, "kind")}
 			idx := make([]int, len(tp.tags))
